@@ -653,6 +653,9 @@ def _run_c09(chk, prog):
                 src = chunk_source(m)
                 want = ("proj", ("item", data_iter_of(c, name)), ("deref",))
                 oks = src is not None and strip_loc(src) == strip_loc(want)
+                di = data_iter_of(c, name)
+                if not oks and src is not None and di is not None and di[0] == "iter" and di[1] == "once" and strip_loc(src) == strip_loc(("proj", di[2], ("deref",))):
+                    oks = True      # the single item of a one-element iterator that was walked concretely
                 chk.ob("C09.O4", "%s: the chunked item is an item of the caller's data iterator" % name, oks, key="xfer:%s:item-source" % name, where=g.nodes[k].where,
                        detail="chunks of %s" % (fmt_term(src) if src else "?"))
         # O3: counter discipline
@@ -721,6 +724,8 @@ def senddata_shape(m):
     if not (o[0] == "app" and o[1] == "cast:u16"):
         return "offset %s is not a u16 truncation" % fmt_term(o)
     mul = o[2][0]
+    if mul[0] == "app" and mul[1] == "Shl" and len(mul[2]) == 2 and mul[2][1][0] == "int" and 0 <= mul[2][1][1] < 16:
+        mul = ("app", "Mul", (mul[2][0], mk_int(1 << mul[2][1][1], "usize")))       # i << k == i * 2^k
     if not (mul[0] == "app" and mul[1] == "Mul" and len(mul[2]) == 2):
         return "offset %s is not index * chunk size" % fmt_term(mul)
     idx, n = mul[2]
@@ -765,6 +770,9 @@ def data_iter_of(c, name):
             src = chunk_source(m)
             if src and src[0] == "proj" and src[1][0] == "item":
                 return src[1][1]
+            if src and src[0] == "proj" and src[2] == ("deref",) and src[1][0] == "sym" and str(src[1][1]).startswith("ret:to_bytes"):
+                # a one-element collection iterated concretely (`[block].into_iter()`): the item is the element itself
+                return ("iter", "once", src[1])
     return None
 
 
